@@ -34,6 +34,14 @@ RULE = ('Generated definitions also group 0-3 fields per entry; strings '
         'concatenated reference encodings (F5) and reference bytes decode '
         'and re-encode identically (F6). Non-trivial: at least one field '
         'off zero/empty/default; distinct by (class, version, values).')
+RULE += (' ' +
+         'Added in later rounds: every check also on a context object that '
+         "first carried another era's version (@reassigned-context); decoded "
+         'fields are read while the context carries a version across every '
+         'layout change, then re-encoded (property views excepted); '
+         'definition entries with several keys; 31 look-alike texts in every '
+         'String field of every (class, version) pair; overlapping '
+         'writes/reads of nine packets incl. cross-version pairs. ')
 LEVEL_TEXT = ('Round-trip + exact-consumption + reference-encoding testing '
               'over the complete (class, supported version) configuration '
               'space with boundary and seeded random field values, and over '
